@@ -3,9 +3,9 @@ import Props.C09
 /-!
 # UncondC09 — C09: key serialisation round trips on the named curves with NO primality hypothesis
 
-For every curve of `NamedPrimes.unconditionalCurves` (13 curves: p and n carry kernel-checked Pocklington certificates, the
+For every curve of `NamedPrimes.unconditionalCurves` (all 17 curves of the table since the last four certificates were found: p and n carry kernel-checked Pocklington certificates, the
 order of the base point is checked by kernel evaluation) the headline statements of C09 hold without any hypothesis about the
-curve, except `#E(𝔽_p) = n` where stated; for the 4 curves with one uncertified number (`…_<curve>`) with exactly that one.
+curve, except `#E(𝔽_p) = n` where stated.
 Generated from `Props/Uncond.lean` by harness/tools/primecerts/mkuncond_split.py.
 -/
 namespace UncondC09
@@ -26,29 +26,5 @@ theorem all_round_trips (hr : r ∈ unconditionalCurves) (d : Nat) (h1 : 1 ≤ d
         (∀ fmt, ∃ bs, k.toDer enc fmt = .ok bs ∧ SK.fromDer KeysWire.modelExt bs = .ok k ∧
           ∃ pem, k.toPem enc fmt = .ok pem ∧ SK.fromPem KeysWire.modelExt pem = .ok k)) :=
   C09.all_round_trips_model r (mem_table hr) (primeP hr) (primeN hr) d h1 h2
-
-theorem round_trips_NIST384p (h : Nat.Prime Gen.curve_NIST384p.n) (d : Nat) (h1 : 1 ≤ d) (h2 : d < Gen.curve_NIST384p.n) :
-    ∃ k : Keys.SK, Keys.SK.fromSecretExponent KeysWire.modelExt Gen.curve_NIST384p d = .ok k ∧ k.curve = Gen.curve_NIST384p ∧ k.d = d ∧
-      (∀ enc, ∃ bs, k.vk.toString enc = .ok bs ∧ Keys.VK.fromString KeysWire.modelExt Gen.curve_NIST384p bs true = .ok k.vk) := by
-  obtain ⟨k, e1, e2, e3, _, _, _, e7, _⟩ := C09.all_round_trips_model Gen.curve_NIST384p mem_NIST384p prime_p_NIST384p h d h1 h2
-  exact ⟨k, e1, e2, e3, e7⟩
-
-theorem round_trips_NIST521p (h : Nat.Prime Gen.curve_NIST521p.n) (d : Nat) (h1 : 1 ≤ d) (h2 : d < Gen.curve_NIST521p.n) :
-    ∃ k : Keys.SK, Keys.SK.fromSecretExponent KeysWire.modelExt Gen.curve_NIST521p d = .ok k ∧ k.curve = Gen.curve_NIST521p ∧ k.d = d ∧
-      (∀ enc, ∃ bs, k.vk.toString enc = .ok bs ∧ Keys.VK.fromString KeysWire.modelExt Gen.curve_NIST521p bs true = .ok k.vk) := by
-  obtain ⟨k, e1, e2, e3, _, _, _, e7, _⟩ := C09.all_round_trips_model Gen.curve_NIST521p mem_NIST521p prime_p_NIST521p h d h1 h2
-  exact ⟨k, e1, e2, e3, e7⟩
-
-theorem round_trips_BRAINPOOLP384r1 (h : Nat.Prime Gen.curve_BRAINPOOLP384r1.p) (d : Nat) (h1 : 1 ≤ d) (h2 : d < Gen.curve_BRAINPOOLP384r1.n) :
-    ∃ k : Keys.SK, Keys.SK.fromSecretExponent KeysWire.modelExt Gen.curve_BRAINPOOLP384r1 d = .ok k ∧ k.curve = Gen.curve_BRAINPOOLP384r1 ∧ k.d = d ∧
-      (∀ enc, ∃ bs, k.vk.toString enc = .ok bs ∧ Keys.VK.fromString KeysWire.modelExt Gen.curve_BRAINPOOLP384r1 bs true = .ok k.vk) := by
-  obtain ⟨k, e1, e2, e3, _, _, _, e7, _⟩ := C09.all_round_trips_model Gen.curve_BRAINPOOLP384r1 mem_BRAINPOOLP384r1 h prime_n_BRAINPOOLP384r1 d h1 h2
-  exact ⟨k, e1, e2, e3, e7⟩
-
-theorem round_trips_BRAINPOOLP512r1 (h : Nat.Prime Gen.curve_BRAINPOOLP512r1.p) (d : Nat) (h1 : 1 ≤ d) (h2 : d < Gen.curve_BRAINPOOLP512r1.n) :
-    ∃ k : Keys.SK, Keys.SK.fromSecretExponent KeysWire.modelExt Gen.curve_BRAINPOOLP512r1 d = .ok k ∧ k.curve = Gen.curve_BRAINPOOLP512r1 ∧ k.d = d ∧
-      (∀ enc, ∃ bs, k.vk.toString enc = .ok bs ∧ Keys.VK.fromString KeysWire.modelExt Gen.curve_BRAINPOOLP512r1 bs true = .ok k.vk) := by
-  obtain ⟨k, e1, e2, e3, _, _, _, e7, _⟩ := C09.all_round_trips_model Gen.curve_BRAINPOOLP512r1 mem_BRAINPOOLP512r1 h prime_n_BRAINPOOLP512r1 d h1 h2
-  exact ⟨k, e1, e2, e3, e7⟩
 
 end UncondC09
